@@ -93,5 +93,9 @@ def generic_replay(ctx, rp, oracle_for=None, drv='drv_reader'):
         o, e, rc = run_lines(exe, lines, 120)
         print('impl:', '\n'.join(o or [])[:800], (e or '')[-500:])
         if o is None or rc != 0 or len(o) != len(lines): return True
-        return (oracle_for(lines)(o) is not True) if oracle_for else True
+        if oracle_for: return oracle_for(lines)(o) is not True
+        # no oracle can be rebuilt from the kept lines: the implementation ran to completion; compare it with the model on the same lines
+        m, i, problems = run_both(exe, lines)
+        for a, b in zip(m, i): print('model:', a[:400]); print('impl: ', b[:400])
+        return m != i or bool(problems)
     return not ctx.obligations_ok
